@@ -2,7 +2,7 @@
 harness-set names defined in lib/kani_sets.py."""
 
 PROPS = {
-    'C18': {'units': ['U-SET', 'U-UTIL'], 'level': 'proof',
+    'C18': {'units': ['U-SET', 'U-UTIL'], 'kani': 'C18', 'level': 'proof',
             'assumptions': ['std set_read_timeout / set_write_timeout return Err for a zero Duration (std documentation)', 'Duration modelled as an opaque value with an is_zero flag'],
             'not_covered': ['the clap- and serde-derived constructors (macro-generated code) build TimeoutSettings without the zero check: such values are rejected with InvalidInput only when the socket is configured (proved: apply_timeout never panics and reports them)',
                             'ExtraRequestSettings builders', 'TcpSocketImpl::new connect_timeout(zero) path']},
